@@ -42,6 +42,54 @@ Definition get_multiplier_sequence (resolutions : list Z) (bases : option (list 
   end.
 
 (* --------------------------------------------------------- zoomify_cooler (:756-881) *)
+Fixpoint lookup {A} (r : Z) (lv : list (Z * A)) : option A :=
+  match lv with
+  | [] => None
+  | (r', c) :: rest => if r =? r' then Some c else lookup r rest
+  end.
+
+(** parsed_uris[base_binsize] = ... in input order: a later base with the same bin size wins *)
+Definition base_dict {A} (bases : list (Z * A)) : list (Z * A) := rev bases.
+
+(** The level-derivation logic of zoomify_cooler does not look inside a cooler: it is written once over
+    an abstract level type C with its coarsening function (coarsen_cooler with the requested columns and
+    aggregation), and instantiated below. *)
+Section ZoomWith.
+  Context {C : Type}.
+  Variable coarsenC : C -> Z -> Z -> Z -> C.     (* level -> factor -> chunksize -> batchsize -> level *)
+  Variable emptyC : C.
+
+  (** one iteration of the "Aggregate" loop; None = KeyError (predecessor level missing) *)
+  Definition zoom_step_w (resn pred mult bres : list Z) (chunksize batchsize : Z)
+             (olv : option (list (Z * C))) (i : nat) : option (list (Z * C)) :=
+    match olv with
+    | None => None
+    | Some lv =>
+        let p := nth i pred (-1) in
+        if (p =? -1) || memZ (nth i resn 0) bres then Some lv
+        else
+          let prev := nth (Z.to_nat p) resn 0 in
+          let m := nth i mult 0 in
+          match lookup prev lv with
+          | None => None
+          | Some c => Some ((prev * m, coarsenC c m chunksize batchsize) :: lv)
+          end
+    end.
+
+  (** bases: (bin size or 1 for a variable table, level) per base URI.  Result: the groups
+      /resolutions/<r> of the output file, most recently written first; None = ValueError *)
+  Definition zoomify_with (bases : list (Z * C)) (resolutions : list Z) (chunksize batchsize : Z)
+    : option (list (Z * C)) :=
+    let bres := map fst bases in
+    match get_multiplier_sequence resolutions (Some bres) with
+    | None => None
+    | Some (resn, pred, mult) =>
+        let copied := map (fun b => (b, match lookup b (base_dict bases) with Some c => c | None => emptyC end))
+                          (np_unique bres) in
+        fold_left (zoom_step_w resn pred mult bres chunksize batchsize) (seq 0 (length resn)) (Some copied)
+    end.
+End ZoomWith.
+
 (** what zoomify reads from / writes for one resolution: bin table, chromsizes, pixels.
     (Extra bin columns such as `weight` travel with a base level because the whole /bins group
     is copied; they are not part of this record: base levels are copied as they are.) *)
@@ -50,51 +98,25 @@ Definition c_bins (c : cooler) := fst (fst c).
 Definition c_sizes (c : cooler) := snd (fst c).
 Definition c_px (c : cooler) := snd c.
 
+(** default aggregation (sum of the count column) *)
 Definition coarsen_c (c : cooler) (k chunksize batchsize : Z) : cooler :=
   let r := coarsen_cooler (c_bins c) (c_sizes c) (c_px c) k chunksize batchsize in
   (fst r, c_sizes c, snd r).
+Definition zoom_step := zoom_step_w coarsen_c.
+Definition zoomify_cooler : list (Z * cooler) -> list Z -> Z -> Z -> option (list (Z * cooler)) :=
+  zoomify_with coarsen_c ([], [], []).
 
-Fixpoint lookup {A} (r : Z) (lv : list (Z * A)) : option A :=
-  match lv with
-  | [] => None
-  | (r', c) :: rest => if r =? r' then Some c else lookup r rest
-  end.
-
-(** parsed_uris[base_binsize] = ... in input order: a later base with the same bin size wins *)
-Definition base_dict (bases : list (Z * cooler)) : list (Z * cooler) := rev bases.
-
-(** one iteration of the "Aggregate" loop; None = KeyError (predecessor level missing) *)
-Definition zoom_step (resn pred mult bres : list Z) (chunksize batchsize : Z)
-           (olv : option (list (Z * cooler))) (i : nat) : option (list (Z * cooler)) :=
-  match olv with
-  | None => None
-  | Some lv =>
-      let p := nth i pred (-1) in
-      if (p =? -1) || memZ (nth i resn 0) bres then Some lv
-      else
-        let prev := nth (Z.to_nat p) resn 0 in
-        let m := nth i mult 0 in
-        match lookup prev lv with
-        | None => None
-        | Some c => Some ((prev * m, coarsen_c c m chunksize batchsize) :: lv)
-        end
-  end.
-
-(** bases: (bin size or 1 for a variable table, cooler) per base URI.  Result: the groups
-    /resolutions/<r> of the output file, most recently written first; None = ValueError *)
-Definition zoomify_cooler (bases : list (Z * cooler)) (resolutions : list Z) (chunksize batchsize : Z)
-  : option (list (Z * cooler)) :=
-  let bres := map fst bases in
-  match get_multiplier_sequence resolutions (Some bres) with
-  | None => None
-  | Some (resn, pred, mult) =>
-      let copied := map (fun b => (b, match lookup b (base_dict bases) with Some c => c | None => ([], [], []) end))
-                        (np_unique bres) in
-      fold_left (zoom_step resn pred mult bres chunksize batchsize) (seq 0 (length resn)) (Some copied)
-  end.
+(** any value type and requested aggregation:  zoomify_cooler(..., columns=, agg=) *)
+Definition gcooler (V : Type) := (list bin * list Z * list (key * V))%type.
+Definition coarsen_cg {V} (agg : list V -> V) (c : gcooler V) (k chunksize batchsize : Z) : gcooler V :=
+  let r := coarsen_cooler_g agg (fst (fst c)) (snd (fst c)) (snd c) k chunksize batchsize in
+  (fst r, snd (fst c), snd r).
+Definition zoomify_cooler_g {V} (agg : list V -> V)
+  : list (Z * gcooler V) -> list Z -> Z -> Z -> option (list (Z * gcooler V)) :=
+  zoomify_with (coarsen_cg agg) ([], [], []).
 
 (** the levels listed in the file, ascending *)
-Definition level_list (lv : list (Z * cooler)) : list Z := np_unique (map fst lv).
+Definition level_list {A} (lv : list (Z * A)) : list Z := np_unique (map fst lv).
 
 (* ------------------------------ preferred_sequence / geomprog / niceprog (:358-444) *)
 (** geomprog(start, 2) as long as <= stop.  [fuel] bounds the number of terms. *)
